@@ -16,6 +16,10 @@ class DisplayT(T.Ty):
     def name(self): return "Display"
 Display = DisplayT()
 
+class DisplayDictT(T.Ty):
+    def name(self): return "DisplayDict"
+DisplayDict = DisplayDictT()   # t = [(key SV, value SV)]: a constant dict display such as a module-level table
+
 class PyFuncT(T.Ty):
     def name(self): return "PyFunc"
 PyFunc = PyFuncT()    # t = ('func', qual) | ('bound', qual, self_sv) | ('class', qual) | ('lambda', node, env)
